@@ -23,7 +23,7 @@ func init() { Registry["C13"] = runC13 }
 type c13case struct {
 	Conf     sessConf `json:"conf"`
 	Kind     string   `json:"kind"`     // cache | cachepartial
-	Position string   `json:"position"` // head middle after-materialize before-shuffle after-shuffle under-head
+	Position string   `json:"position"` // head middle after-selective-filter after-materialize before-shuffle after-shuffle under-head
 	Shards   int      `json:"shards"`
 	Rows     int      `json:"rows"`
 	Present  int      `json:"present"` // bitmask of shard files present before the second run
@@ -61,6 +61,14 @@ func c13program(c c13case, dir string) (Spec, int) {
 		nodes = append(nodes, cache)
 		ci = 2
 		nodes = append(nodes, PNode{Op: "filter", In: []int{2}, P: 3, Salt: 2})
+	case "after-selective-filter":
+		// every shard is empty at the cache operator (the filter keeps nothing): an empty shard is still a shard, with a file
+		nodes = append(nodes, PNode{Op: "filter", In: []int{0}, P: 1, Salt: c.Seed + 5})
+		cache.In = []int{1}
+		nodes = append(nodes, cache)
+		ci = 2
+		mp.In = []int{2}
+		nodes = append(nodes, mp)
 	case "after-materialize":
 		// the cached slice's dependency is not pipelined into the cache's task (Materialize
 		// pragma): the cache operator is the first operation of its pipeline
@@ -360,7 +368,7 @@ func tailStrs(x []string, n int) []string {
 
 func runC13(r *vf.Runner) {
 	confs := []sessConf{localP4, bm2}
-	positions := []string{"head", "middle", "after-materialize", "before-shuffle", "after-shuffle", "under-head"}
+	positions := []string{"head", "middle", "after-selective-filter", "after-materialize", "before-shuffle", "after-shuffle", "under-head"}
 	run := func(c c13case) { r.Case(c, func(t *vf.T) { runC13case(t, c) }) }
 	// (a) every subset of pre-existing shard files for <= 3 (quick) / 4 (thorough) shards
 	maxS := 3
